@@ -360,4 +360,94 @@ theorem C11_joining_letters_routed :
 example : isLetterRaw 3 = true ∧ runsJoining 0x41726162 = true ∧ runsJoining 0x50686C70 = true
     ∧ letterRouted 0x628 = true ∧ letterRouted 0x10B80 = true ∧ letterRouted 0x1E900 = true := by decide +kernel
 
+/-! ## … whatever script record of the font `select_script` falls back to
+
+`hb_ot_shape_complex_categorize(script, direction, chosen GSUB script)` decides from the script tag that
+`select_script` CHOSE in the font's GSUB: one of the script's own OpenType tags, or — when the font has no such
+record — the fall-backs 'DFLT', 'dflt', 'latn', or nothing at all.  `Gen.ArabicScripts.joiningShaperProbe`
+(regenerated from the compiled crate on every run) holds the shaper picked for every script that owns joining
+letters x every direction x every such chosen tag.  The rule, as hb-ot-shaper.hh and the source comments state it:
+
+* Arabic script: the Arabic shaper for every horizontal text, whatever was chosen ("use the Arabic shaper even if no
+  OT script tag was found"): fonts that register isol/init/medi/fina under 'DFLT' only are shaped as Arabic;
+* the other scripts of the Arabic shaper (Syriac): the Arabic shaper for horizontal text unless 'DFLT' was chosen
+  ("the designer designed the font for the DFLT script": default shaper);
+* the scripts of the Universal shaper: the Universal shaper unless 'DFLT' or 'latn' was chosen, in every direction;
+* vertical text of the Arabic shaper's scripts: the default shaper.
+
+A changed condition in `hb_ot_shape_complex_categorize` makes `C11_shaper_by_gsub_script` false. -/
+
+open RbModel.Gen.ArabicScripts (joiningShaperProbe joiningScriptOtTags)
+
+/-- OpenType script tags 'DFLT', 'latn'; ISO 15924 tag 'Arab' -/
+def tagDFLT : Nat := 0x44464C54
+def tagLatn : Nat := 0x6C61746E
+def scriptArab : Nat := 0x41726162
+
+/-- directions 0 = left-to-right, 1 = right-to-left (2 = top-to-bottom, 3 = bottom-to-top) -/
+def horizontalDir (d : Nat) : Bool := d == 0 || d == 1
+
+/-- the shaper (1 Arabic, 2 Universal, 0 other) of script `sc` for direction `dir` when `gsub` is the chosen GSUB
+    script tag (0 = none), given `base`, the shaper of the script for its own tag and its own direction -/
+def shaperRule (base : Option Nat) (sc dir gsub : Nat) : Nat :=
+  match base with
+  | some 1 => if horizontalDir dir && (gsub != tagDFLT || sc == scriptArab) then 1 else 0
+  | some 2 => if gsub == tagDFLT || gsub == tagLatn then 0 else 2
+  | _ => 0
+
+set_option maxRecDepth 100000 in
+/-- the crate picks the shaper of every joining script by that rule: every direction, every chosen GSUB script -/
+theorem C11_shaper_by_gsub_script :
+    ∀ e ∈ joiningShaperProbe, e.2.2.2 = shaperRule (joiningScriptShaper.lookup e.1) e.1 e.2.1 e.2.2.1 := by
+  decide +kernel
+
+/-- the chosen GSUB scripts the probe must cover for a script with the OpenType tags `ots`:
+    none, the three fall-backs of `select_script`, the script's own tags -/
+def chosenTags (ots : List Nat) : List Nat := [0, tagDFLT, 0x64666C74, tagLatn] ++ ots
+
+/-- the probe has a row for (sc, dir, gsub) -/
+def probed (sc dir gsub : Nat) : Bool :=
+  joiningShaperProbe.any (fun e => e.1 == sc && e.2.1 == dir && e.2.2.1 == gsub)
+
+set_option maxRecDepth 100000 in
+/-- the probe is complete: every joining script x 4 directions x (none, DFLT, dflt, latn, each own tag), and every
+    joining script has an OpenType tag -/
+theorem C11_shaper_probe_complete :
+    ∀ s ∈ joiningScriptShaper, ∃ ots, joiningScriptOtTags.lookup s.1 = some ots ∧ ots ≠ [] ∧
+      ∀ d ∈ [0, 1, 2, 3], ∀ g ∈ chosenTags ots, probed s.1 d g = true := by decide +kernel
+
+set_option maxRecDepth 100000 in
+/-- Arabic-script text in a horizontal direction is shaped by the Arabic shaper whatever GSUB script record the
+    font offered — in particular when it has only 'DFLT' -/
+theorem C11_arabic_script_arabic_shaper :
+    ∀ e ∈ joiningShaperProbe, e.1 = scriptArab → horizontalDir e.2.1 = true → e.2.2.2 = 1 := by
+  decide +kernel
+
+/-- does the joining analysis run for script `sc` when the crate picked shaper code `sh`? -/
+def runsJoiningWith (sc sh : Nat) : Bool :=
+  match sh with
+  | 1 => true
+  | 2 => useJoiningScripts.contains sc
+  | _ => false
+
+/-- the (script, direction, chosen GSUB script) combinations that are shaped WITHOUT the joining analysis by
+    design: vertical text of the Arabic shaper's scripts; 'DFLT' chosen for any script but Arabic; 'latn' chosen
+    for a script of the Universal shaper -/
+def joiningExempt (base : Option Nat) (sc dir gsub : Nat) : Bool :=
+  (base == some 1 && !horizontalDir dir) || (gsub == tagDFLT && sc != scriptArab) || (gsub == tagLatn && base == some 2)
+
+set_option maxRecDepth 100000 in
+/-- every joining script gets the joining analysis for every direction and every chosen GSUB script outside the
+    exemptions, and only there -/
+theorem C11_joining_runs_by_gsub_script :
+    ∀ e ∈ joiningShaperProbe,
+      runsJoiningWith e.1 e.2.2.2 = !joiningExempt (joiningScriptShaper.lookup e.1) e.1 e.2.1 e.2.2.1 := by
+  decide +kernel
+
+/-- non-vacuity: the probe has the rows (Arab, rtl, DFLT) -> Arabic shaper, (Syrc, rtl, DFLT) -> other,
+    (Adlm, rtl, latn) -> other, (Adlm, rtl, none) -> Universal shaper -/
+example : (0x41726162, 1, 0x44464C54, 1) ∈ joiningShaperProbe ∧ (0x53797263, 1, 0x44464C54, 0) ∈ joiningShaperProbe
+    ∧ (0x41646C6D, 1, 0x6C61746E, 0) ∈ joiningShaperProbe ∧ (0x41646C6D, 1, 0, 2) ∈ joiningShaperProbe := by
+  decide +kernel
+
 end RbModel.Arabic
